@@ -22,6 +22,9 @@ fn read_suite() -> Vec<String> {
     let mut q = suite(&TYPES, &CTXS);
     q.push("QUERY a WHERE k >= 1".into());
     q.push("QUERY b WHERE k >= 1".into());
+    // the NOT path enumerates zones differently (complement over the plan's segment list)
+    q.push("QUERY a WHERE NOT k = -1".into());
+    q.push("QUERY b WHERE NOT k = -1".into());
     q
 }
 
@@ -246,6 +249,12 @@ fn judge(s: &Schedule, b: &Built, r: &JobResult) -> (Vec<Finding>, usize, BTreeS
             let wantf: Vec<i64> = want.iter().copied().filter(|k| *k >= 1).collect();
             if let Some(k) = sel_verdict(&gotf, &wantf) {
                 out.push(Finding { schedule: s.clone(), stage: stage.to_string(), what: format!("QUERY {t} WHERE k >= 1 returned {gotf:?}, expected {wantf:?}"), known: k });
+            }
+            let repn = &step.replies[8 + ti];
+            let mut gotn: Vec<i64> = repn.rows.iter().filter_map(|row| row.get("k").and_then(|v| v.as_i64())).collect();
+            gotn.sort();
+            if let Some(k) = sel_verdict(&gotn, &want) {
+                out.push(Finding { schedule: s.clone(), stage: stage.to_string(), what: format!("QUERY {t} WHERE NOT k = -1 returned {gotn:?}, applied events are {want:?}"), known: k });
             }
             let c = o.count.get(*t).copied().unwrap_or(0) as usize;
             if c != want.len() {
